@@ -32,7 +32,7 @@ Inductive ires (A : Type) :=
 | IDone (a : A) (l : L) (c : cur)
 | IPart (l : L)
 | IFail (e : err) (l : L)
-| IFault (f : fault)
+| IFault (f : fault) (l : L)
 | IExc (x : ctl R B) (l : L) (c : cur).
 Arguments IDone {A}. Arguments IPart {A}. Arguments IFail {A}. Arguments IFault {A}.
 Arguments IExc {A}.
@@ -45,7 +45,7 @@ Definition ibind {A C} (m : I A) (k : A -> I C) : I C := fun l c =>
   | IDone a l' c' => k a l' c'
   | IPart l' => IPart l'
   | IFail e l' => IFail e l'
-  | IFault f => IFault f
+  | IFault f l' => IFault f l'
   | IExc x l' c' => IExc x l' c'
   end.
 
@@ -56,19 +56,21 @@ Definition ilift {A} (p : P A) : I A := fun l c =>
   | Done a c' => IDone a l c'
   | Part => IPart l
   | Fail e => IFail e l
-  | Fault f => IFault f
+  | Fault f => IFault f l
   end.
 
 Definition iget : I L := fun l c => IDone l l c.
 Definition iset (f : L -> L) : I unit := fun l c => IDone tt (f l) c.
 Definition ipart {A} : I A := fun l _ => IPart l.
 Definition ifail {A} (e : err) : I A := fun l _ => IFail e l.
-Definition ifault {A} (f : fault) : I A := fun _ _ => IFault f.
+Definition ifault {A} (f : fault) : I A := fun l _ => IFault f l.
 Definition ithrow {A} (x : ctl R B) : I A := fun l c => IExc x l c.
 
 (* checked arithmetic: the translator emits one guard per operation that can overflow or
    underflow in the type rustc gives it *)
 Definition iguard (b : bool) : I unit := if b then iret tt else ifault ArithOverflow.
+(* slice indexing `&s[a..b]` panics when out of range *)
+Definition iguard_idx (b : bool) : I unit := if b then iret tt else ifault LoadOOB.
 
 (* a value-level Result used as the function result *)
 Definition ireturn {A} (r : rval R) : I A :=
@@ -90,7 +92,7 @@ Fixpoint iloop (f : nat) (lbl : nat) (body : I unit) : I B :=
       | IExc (Ret r) l' c' => IExc (Ret r) l' c'
       | IPart l' => IPart l'
       | IFail e l' => IFail e l'
-      | IFault f => IFault f
+      | IFault f l' => IFault f l'
       end
   end.
 
@@ -99,7 +101,7 @@ Fixpoint iloop (f : nat) (lbl : nat) (body : I unit) : I B :=
 Definition ifun (m : I R) : I R := fun l c =>
   match m l c with
   | IExc (Ret r) l' c' => IDone r l' c'
-  | IExc _ _ _ => IFault Unreachable
+  | IExc _ l' _ => IFault Unreachable l'
   | other => other
   end.
 
@@ -109,7 +111,7 @@ Definition irun (m : I R) (l0 : L) : P R := fun c =>
   | IDone a _ c' => Done a c'
   | IPart _ => Part
   | IFail e _ => Fail e
-  | IFault f => Fault f
+  | IFault f _ => Fault f
   | IExc _ _ _ => Fault Unreachable
   end.
 
